@@ -463,7 +463,10 @@ class binary_sequence():
         if isinstance(other, binary_sequence):
             other = other.data
         elif isinstance(other, str):
-            other = str2array(other)
+            try:
+                other = str2array(other)
+            except OverflowError as e:  # an integer literal beyond the C long range: certainly not a 0/1 pattern
+                raise ValueError("Sequence to concatenate must contain only 0's and 1's!") from e
         elif isinstance(other, Array_Like):
             other = np.array(other)
         else:
@@ -504,7 +507,10 @@ class binary_sequence():
         if isinstance(other, binary_sequence):
             other = other.data
         elif isinstance(other, str):
-            other = str2array(other)
+            try:
+                other = str2array(other)
+            except OverflowError as e:  # an integer literal beyond the C long range: certainly not a 0/1 pattern
+                raise ValueError("Sequence to concatenate must contain only 0's and 1's!") from e
         elif isinstance(other, Array_Like):
             other = np.array(other)
         else:
